@@ -70,8 +70,17 @@ func drawTrial(t *rt.Tape, r *simrand.DRBG, exhaustiveIdx int) *trial {
 		}
 		return 256
 	}
-	mode := t.Choose(rt.SFault, 10)
+	mode := t.Choose(rt.SFault, 11)
 	switch mode {
+	case 10: // structured pair across the batches: the same column at payload row r and at check-batch row r (or r mod 256)
+		c := t.Choose(rt.SFault, 128)
+		m := t.Choose(rt.SFault, payloadChunks)
+		r := t.Choose(rt.SFault, rowsOf(m))
+		r2 := (m*chunkRows + r) % 256
+		if t.Choose(rt.SFault, 4) == 0 {
+			r2 = t.Choose(rt.SFault, 256)
+		}
+		tr.Flips = []flip{{Msg: m, Col: c, Row: r}, {Msg: payloadChunks, Col: c, Row: r2}}
 	case 8, 9: // structured pair: the same column at rows r and r+d, or the same row in two columns
 		m := t.Choose(rt.SFault, payloadChunks)
 		rows := rowsOf(m)
